@@ -136,7 +136,9 @@ CHECKS["C18"] = ("Proof (PARTIAL by nature): tape reader visits at most len/7 bl
                  "mutated archives in subprocesses under RLIMIT_CPU/AS with an audit hook on every open/mkdir, plus model comparison.", D, "7 C18")
 CHECKS["C19"] = ("Proof (PARTIAL by nature): over the regenerated CLI description — all documented packages and declared scripts resolve, no "
                  "abbreviations, required exclusive action groups with the documented actions; tape extract writes under --into else beside the "
-                 "archive, list writes nothing. Interpreter start-up/argparse are outside the model: the finite configuration space of the "
+                 "archive, list writes nothing; C19.archive_name_rule — the disk archivers accept an archive name exactly when what follows its last "
+                 "dot is sd / fd in either case (model of the check in DiskArchiveCli.run, compared with the real tools on 28 name shapes). "
+                 "Interpreter start-up/argparse are outside the model: the finite configuration space of the "
                  "property is enumerated exhaustively at process level with tree diffs. Known finding K1 (create --into) is reported, not hidden.", D, "7 C19")
 CHECKS["C20"] = ("Proof: tape create is a function of the sources' contents only (mode, archive name, rest of the file system irrelevant); "
                  "list writes nothing, extract only under the destination; C20.performCore_pure — two disk batches on the same image whose sources agree "
